@@ -293,7 +293,8 @@ static struct lvalue_range {
 static svalue_t global_lvalue_range_sv = { .type = T_LVALUE_RANGE };
 
 static void push_lvalue_range (int code) {
-  int ind1, ind2, size = 0;
+  int64_t ind1, ind2;
+  int size = 0;
   svalue_t *lv;
 
   if (sp->type == T_LVALUE)
@@ -323,20 +324,21 @@ static void push_lvalue_range (int code) {
   if (!((--sp)->type == T_NUMBER))
     error ("*Illegal 2nd index type to range lvalue.");
 
-  ind2 = (code & 0x01) ? (size - (int)sp->u.number) : (int)sp->u.number;
-  if (++ind2 < 0 || (ind2 > size))
+  ind2 = (code & 0x01) ? (int64_t)((uint64_t)size - (uint64_t)sp->u.number) : sp->u.number;
+  if (ind2 < -1 || ind2 >= size)
     error ("*The 2nd index to range lvalue must be >= -1 and < sizeof(indexed value)");
 
   if (!((--sp)->type == T_NUMBER))
     error ("*Illegal 1st index type to range lvalue");
 
-  ind1 = (code & 0x10) ? (size - (int)sp->u.number) : (int)sp->u.number;
+  ind2++;
+  ind1 = (code & 0x10) ? (int64_t)((uint64_t)size - (uint64_t)sp->u.number) : sp->u.number;
 
   if (ind1 < 0 || ind1 > size)
     error ("*The 1st index to range lvalue must be >= 0 and <= sizeof(indexed value)");
 
-  global_lvalue_range.ind1 = ind1;
-  global_lvalue_range.ind2 = ind2;
+  global_lvalue_range.ind1 = (int)ind1;
+  global_lvalue_range.ind2 = (int)ind2;
   global_lvalue_range.size = size;
   sp->type = T_LVALUE;
   sp->u.lvalue = &global_lvalue_range_sv;
